@@ -20,6 +20,7 @@ Variable c : p_cfg.
 Variable d : nat.
 Hypothesis GD : p_d_ok c d = true.
 Hypothesis L : d < length c.
+Hypothesis LM : length c <= p_max_events.
 
 Lemma p_d_ok_parts :
   (forall x a, x <> d -> In a (pc_rs (p_get c x) ++ pc_ws (p_get c x) ++ pc_cs (p_get c x)) -> p_act_target a <> d) /\
@@ -59,7 +60,7 @@ Proof.
   { intros o x H -> ->. unfold p_ops_ok_d in GO. rewrite forallb_forall in GO. specialize (GO _ H). simpl in GO.
     rewrite Nat.eqb_refl in GO. exact GO. }
   unfold p_log, p_run. rewrite p_proj_rev. f_equal. destruct be.
-  - apply (re_log _ _ _ _ (p_re_run c d G1 G2d G3 G4r G4c ops L GO' (p_init true c) (l_init c d) 0 eq_refl
+  - apply (re_log _ _ _ _ (p_re_run c d G1 G2d G3 G4r G4c ops LM L GO' (p_init true c) (l_init c d) 0 eq_refl
                 (p_inv_init c true) (p_re_init c d))).
   - apply (rs_log _ _ _ _ (p_rs_run c d G1 G2d ops L (p_init false c) (l_init c d) 0 eq_refl (p_rs_init c d))).
 Qed.
@@ -115,11 +116,11 @@ Proof.
 Qed.
 
 Theorem p_backends_agree c ops d :
-  p_cfg_ok c = true -> p_ops_ok c ops = true -> d < length c ->
+  p_cfg_ok c = true -> p_ops_ok c ops = true -> d < length c -> length c <= p_max_events ->
   p_proj d (p_log (p_run true c ops)) = p_proj d (p_log (p_run false c ops)).
-Proof. intros GC GO L. apply p_agree_d; auto. apply p_cfg_ok_d; auto. apply p_ops_ok_d_of; auto. Qed.
+Proof. intros GC GO L LM. apply p_agree_d; auto. apply p_cfg_ok_d; auto. apply p_ops_ok_d_of; auto. Qed.
 
 Theorem p_backends_refine c ops d be :
-  p_cfg_ok c = true -> p_ops_ok c ops = true -> d < length c ->
+  p_cfg_ok c = true -> p_ops_ok c ops = true -> d < length c -> length c <= p_max_events ->
   p_proj d (p_log (p_run be c ops)) = rev (a_log (l_run c d 0 (l_init c d) ops)).
-Proof. intros GC GO L. apply p_refine_d; auto. apply p_cfg_ok_d; auto. apply p_ops_ok_d_of; auto. Qed.
+Proof. intros GC GO L LM. apply p_refine_d; auto. apply p_cfg_ok_d; auto. apply p_ops_ok_d_of; auto. Qed.
